@@ -605,6 +605,47 @@ def evaluate(cases: t.List[dict], workers: int = 0) -> t.List[dict]:
     return res
 
 
+def dropdup_case(rng: random.Random) -> t.Optional[dict]:
+    """dropDuplicates(subset) keeps one (unspecified) representative per key: checked relationally"""
+    kinds = [rng.choice(KINDS) for _ in range(rng.randint(0, 3))]
+    c = gen_program(rng, kinds)
+    if not c or not valid(c) or has_risky_limit(c):
+        return None
+    import c11
+
+    cols = c11.current_cols(c)
+    c["subset"] = rng.sample(cols, rng.randint(1, len(cols)))
+    return c
+
+
+def run_dropdup(c: dict) -> dict:
+    from sqlframe.duckdb import functions as F
+
+    try:
+        df = X.make_df(session(), c["schema"], c["rows"])
+        for s in c["steps"]:
+            df = apply_step(df, s, F)
+        before = [[plain(v) for v in r] for r in df.collect()]
+        cols = list(df.columns)
+        out = df.dropDuplicates(c["subset"])
+        after = [[plain(v) for v in r] for r in out.collect()]
+        idx = [cols.index(k) for k in c["subset"]]
+        key = lambda r: json.dumps([r[i] for i in idx], sort_keys=True)  # noqa: E731
+        problems = []
+        if list(out.columns) != cols:
+            problems.append(f"columns {list(out.columns)} != {cols}")
+        if len({key(r) for r in after}) != len(after):
+            problems.append("two result rows share a key")
+        if {key(r) for r in after} != {key(r) for r in before}:
+            problems.append("the key sets of input and result differ")
+        pool = bag(before)
+        if any(json.dumps(list(r), sort_keys=True) not in pool for r in after):
+            problems.append("a result row is not an input row")
+        return {"problems": problems, "before": before, "after": after}
+    except Exception as e:  # noqa
+        return {"problems": [f"{type(e).__name__}: {str(e)[:200]}"]}
+
+
 def run(ctx: Ctx) -> None:
     idx = vlib.props_index()[ID]
     vlib.prove(ctx, MODULES, GEN, idx["theorems"], SOURCES)
@@ -649,6 +690,11 @@ def run(ctx: Ctx) -> None:
             if not r["impl_eq_spec"]:
                 vlib.report_known(ctx, e, e["summary"])
 
+    # dropDuplicates(subset): relational specification (one representative per key, each an input row)
+    dd = [x for x in (dropdup_case(ctx.rng) for _ in range(400 if ctx.thorough else 40)) if x]
+    dd_res = vlib.parallel_map(run_dropdup, dd)
+    dd_bad = [(c, r) for c, r in zip(dd, dd_res) if r["problems"]]
+
     if model_mismatch:
         ctx.broken.append(f"correspondence stream A (implementation vs Impl/DataFrame.lean): {len(model_mismatch)} of {len(res)} cases differ")
 
@@ -669,6 +715,9 @@ def run(ctx: Ctx) -> None:
                 "broken": ctx.broken,
             },
         )
+        reported += 1
+    for c, r in dd_bad[: max(0, 3 - reported)]:
+        vlib.report_violation(ctx, {"kind": "dropDuplicates(subset) does not keep exactly one input row per key", "program": show_case(c) + f".dropDuplicates({c['subset']})", "dropdup_case": c, "problems": r["problems"], "result": r.get("after")})
         reported += 1
     if ctx.broken and not reported:
         vlib.report_violation(
@@ -697,6 +746,7 @@ def run(ctx: Ctx) -> None:
             "out_of_scope_cases": sum(1 for r in res if r["scope"]),
             "order_determined_cases": n_ordered,
             "implementation_errors": n_err,
+            "dropDuplicates_subset_relational_cases": len(dd),
             "op_kind_histogram": kinds_hist,
             "length_histogram": {str(k): v for k, v in sorted(lens.items())},
             "samples": [{"program": show_case(r["case"]), "result": r["impl"]} for r in res[:: max(1, len(res) // 4)][:4]],
